@@ -118,6 +118,8 @@ def param_relative(t):
 def tok_str(t):
     if t is None:
         return '?'
+    if t[0] == 'ret':
+        return '<returned>'
     if t[0] in ('var', 'param', 'pr', 'out'):
         pre = {'var': '', 'param': '', 'pr': 'parent-or-root:', 'out': '*'}[t[0]]
         return pre + vname(t[1])
@@ -168,7 +170,9 @@ class FnInfo:
                         if len(toks) == 1 and list(toks)[0][0] != 'unk':
                             self.alias[v['id']] = list(toks)[0]
                         continue
-                    self.alias[v['id']] = la.tok(self, ini)
+                    t_ = la.tok(self, ini)
+                    if t_[0] != 'unk':
+                        self.alias[v['id']] = t_      # a pointer that is a name for something known; else it names itself
 
 
 class LockAnalysis:
@@ -263,10 +267,18 @@ class LockAnalysis:
             if t[1] in fi.fresh_vars:
                 return 'FRESH'
             ini = R.var_decl_init(fi.f, t[1])
-            if ini is not None:
+            hops = 0
+            while ini is not None and hops < 4:
                 for x in fi.f.walk(ini):
                     if is_call(x, cq=Y + 'find_border'):
                         return 'TARGET'
+                # a copy of another local (`auto [b, v] = node_and_v;`): what that local was initialised from
+                x0 = fi.f.strip(ini, casts=True)
+                if x0 is not None and x0['k'] == 'DeclRefExpr' and x0.get('dk') == 'var':
+                    ini = R.var_decl_init(fi.f, x0.get('id'))
+                    hops += 1
+                else:
+                    break
             return 'LOCAL'
         if t[0] in ('param', 'this'):
             return 'PARAM'
@@ -377,6 +389,16 @@ class LockAnalysis:
                                 return ('var', c['id'])
                         return la.tok(fi, a)
                     return ('unk', 'out')
+                if t[0] == 'ret':
+                    # the variable that receives the call's value
+                    p_ = f.parent(n)
+                    if p_ is not None and p_['k'] == 'DeclStmt':
+                        return ('var', p_['vars'][0]['id'])
+                    if p_ is not None and p_['k'] == 'BinaryOperator' and p_.get('op') == '=':
+                        l_ = f.strip(f.ch(p_)[0])
+                        if l_ is not None and l_['k'] == 'DeclRefExpr':
+                            return ('var', l_['id'])
+                    return ('unk', 'ret')
                 if t[0] in ('next', 'prev', 'parent', 'child'):
                     return (t[0], mp(t[1]))
                 return t
@@ -655,6 +677,9 @@ class LockAnalysis:
             held, dirty, fresh, assumed, released, needs = st
             rel = frozenset(t for t in released if param_relative(t) and t in assumed)
             keep = frozenset(t for t in held if t not in assumed)
+            if rtok is not None and rtok in keep and rtok[0] == 'var':
+                # the node is handed to the caller as the return value (locked): like an out-parameter
+                keep = (keep - {rtok}) | {('ret',)}
             effects.append({'rel': rel, 'keep': keep, 'node': n, 'path': path, 'ret': rtok,
                             'held': held, 'assumed': assumed})
             need |= set(needs)
@@ -678,7 +703,7 @@ class LockAnalysis:
                 evs, exits = self.analyse(f, record=False)
                 effects, need = self.summarise(f, exits)
                 rel = frozenset().union(*[e['rel'] for e in effects]) if effects else frozenset()
-                keep_all = [frozenset(t for t in e['keep'] if t[0] == 'out' or param_relative(t)) for e in effects]
+                keep_all = [frozenset(t for t in e['keep'] if t[0] in ('out', 'ret') or param_relative(t)) for e in effects]
                 keep = frozenset().union(*keep_all) if keep_all else frozenset()
                 sm = {'rel': rel, 'keep': keep, 'need': frozenset(need), 'publishes': frozenset()}
                 if sm != self.summary[f.fid]:
